@@ -428,6 +428,102 @@ fn c09<M: Machine>(w: &World<M>, slot: u16, s: &Slot<M>, o_h: &Obs, cfg: CheckCf
     }
 }
 
+/// Population doubling under C09: the slot's state merged with copies of itself k times holds
+/// every observation 2^k times (counts beyond 2^24, 2^32, 2^53 - populations that only nested
+/// merges reach). One batch computation over that population is out of reach, but what it would
+/// report is known exactly from the model: count n*2^k, the same mean, variance
+/// Q_c*2^k/(n*2^k - 1), and merging a register with its own copy is exact in floating point, so
+/// the rounding tolerances of the undoubled comparison apply unchanged. k is a function of the
+/// trace (slot number and count).
+pub fn doubling_probe_c09<M: Machine>(slot: u16, s: &Slot<M>, stats: &mut Stats) -> Option<Violation> {
+    if M::FAMILY != Family::Mean || M::STREAMS != 1 {
+        return None;
+    }
+    let n = s.model.count(0);
+    if !(2..=4096).contains(&n) {
+        return None;
+    }
+    let k = [1u32, 9, 17, 23, 24, 25, 31, 32, 33, 41][((slot as u64 + n) % 10) as usize];
+    let op = (n % 3) as u8;
+    let mut st = s.st.clone();
+    for _ in 0..k {
+        let (a, b) = (st.clone(), st.clone());
+        match guard(|| M::merge(a, b, op)) {
+            Ok(x) => st = x,
+            Err(p) => return Some(Violation::new("C09", "merge-of-valid-states-failed", slot, format!("a state of {n} observations merged with its own copy: {p}"))),
+        }
+    }
+    stats.inc("c09_population_doubling_probes");
+    let want = n << k;
+    let plan = ObsPlan { confs: &[], unguarded: false };
+    let o = M::observe(&st, plan);
+    match obs_get(&o, What::Count(0)) {
+        Some(Val::U(g)) if *g == want => {}
+        other => {
+            return Some(Violation::new(
+                "C09",
+                "count-mismatch-after-self-merges",
+                slot,
+                format!("{n} observations merged with themselves {k} times: the state reports {:?}, one batch over that population holds {want}", other.map(|v| v.render())),
+            ))
+        }
+    }
+    let t = tolerances::<M>(s, 0);
+    let sm = s.model.agg[0].summary();
+    // the sums of the doubled population must stay inside the element type's range
+    let fmax = match M::FLT {
+        Flt::F32 => f32::MAX as f64,
+        _ => f64::MAX,
+    };
+    let scale = 2f64.powi(k as i32);
+    if !(sm.a_f * scale < fmax / 8.0 && sm.q_f * scale < fmax / 8.0) {
+        stats.inc("c09_population_doubling_range_skipped");
+        return None;
+    }
+    let tr = M::TRANSFORM;
+    let u = t.u;
+    let o0 = M::observe(&s.st, plan);
+    let (m0, mk) = (getf(&o0, What::Mean(0))?, getf(&o, What::Mean(0))?);
+    let slack = match tr {
+        Transform::Ln => 8.0 * u * (1.0 + t.mu.abs()),
+        Transform::Recip => 8.0 * u * t.mu.abs(),
+        _ => 0.0,
+    };
+    let tol = 2.0 * (t.dm + slack) + out_quant::<M>(tr, m0, mk);
+    let d = if mk.to_bits() == m0.to_bits() { 0.0 } else { (untransform(tr, mk) - untransform(tr, m0)).abs() };
+    stats.worst("c09_doubling_mean_over_tol", if d == 0.0 { 0.0 } else { d / tol });
+    if !(d <= tol) {
+        return Some(Violation::new(
+            "C09",
+            "mean-differs-from-batch-after-self-merges",
+            slot,
+            format!("{n} observations merged with themselves {k} times (count {want}): mean {:?}, the mean of the population is {:?}: |diff| in accumulation space {:e} > tol {:e}", mk, m0, d, tol),
+        ));
+    }
+    if !t.well {
+        return None;
+    }
+    let nk = n as f64 * scale;
+    let var_want = t.var * (n as f64 - 1.0) * scale / (nk - 1.0);
+    if let Some(vk) = getf(&o, What::Var(0)) {
+        let d = (vk - var_want).abs();
+        let tol = 2.0 * t.dv;
+        stats.worst("c09_doubling_var_over_tol", d / tol);
+        if !(d <= tol) {
+            return Some(Violation::new(
+                "C09",
+                "variance-differs-from-batch-after-self-merges",
+                slot,
+                format!("{n} observations merged with themselves {k} times (count {want}): variance {:?}, the variance of that population is {:?}: |diff| {:e} > tol {:e}", vk, var_want, d, tol),
+            ));
+        }
+    }
+    // (the standard error is not judged here: its definition - sd / sqrt(n - 1) today - is the
+    // library's own, and without a batch run over 2^k copies there is no second evaluation of it;
+    // the C05 doubling probe judges it for Geometric / Harmonic against the doubled arithmetic twin)
+    None
+}
+
 /// tolerances in the accumulation space for stream k
 struct Tol {
     n: f64,
